@@ -15,8 +15,9 @@ Modelling decisions (all conservative):
     kinds are unequal, containers through the uninterpreted predicate `dyn_py_eq` (only reflexivity is known).
   * ordering of Dyn values (sort keys): numbers numerically, strings lexicographically, anything else is a
     TypeError in exec mode and an uninterpreted relation in spec mode.
-  * well-formedness of every Dyn value (global axioms, `axioms`): len(list) >= 0, len(dict) >= 0,
-    len(dict) == 0  <=>  no key present.
+  * well-formedness (`wf`): the datatype's carrier also contains ill-formed terms (negative lengths), so no
+    universally quantified axiom is used; instead, for every Dyn term the interpretation looks at (inputs, json.loads
+    results, elements read out of them) it assumes  len(list) >= 0, len(dict) >= 0, len(dict) == 0 <=> no key.
 """
 from __future__ import annotations
 import z3
@@ -118,23 +119,24 @@ def to_dyn(v):
     raise TypeError("cannot encode %s as Dyn" % type(v).__name__)
 
 
-def axioms(I):
-    """global well-formedness of Dyn values, assumed once per path"""
+def wf(I, e):
+    """well-formedness of the Dyn term e, assumed when the interpretation first looks at it (type invariant of the
+    JSON-like values: the datatype's carrier also contains terms with negative lengths, which no python value has)"""
     p = I.path
-    if getattr(p, "_dyn_axiom", False):
+    seen = getattr(p, "_dyn_wf", None)
+    if seen is None:
+        seen = p._dyn_wf = set()
+        I.ver.note_assumption("Dyn values are well-formed JSON-like values: len(list) >= 0, len(dict) >= 0, "
+                              "len(dict) == 0 iff it has no key; floats are reals (no NaN/inf)")
+    if e.get_id() in seen:
         return
-    p._dyn_axiom = True
-    x = z3.Const("dy_x", JV)
+    seen.add(e.get_id())
+    if z3.is_app(e) and e.decl().kind() == z3.Z3_OP_DT_CONSTRUCTOR and e.decl().name() not in ("jlist", "jdict"):
+        return
     k = z3.String("dy_k")
-    wit = z3.Function("dyn_some_key", JV, z3.StringSort())
-    p.assume(z3.ForAll([x], z3.Implies(is_list(x), ln(x) >= 0), patterns=[ln(x)]))
-    p.assume(z3.ForAll([x], z3.Implies(is_dict(x), z3.And(dcard(x) >= 0,
-                                                          z3.Implies(dcard(x) > 0, z3.Select(ddom(x), wit(x))))),
-                       patterns=[dcard(x)]))
-    p.assume(z3.ForAll([x, k], z3.Implies(z3.And(is_dict(x), z3.Select(ddom(x), k)), dcard(x) >= 1),
-                       patterns=[z3.Select(ddom(x), k)]))
-    I.ver.note_assumption("Dyn values are well-formed JSON-like values: len(list) >= 0, len(dict) >= 0, "
-                          "len(dict) == 0 iff it has no key; floats are reals (no NaN/inf)")
+    p.assume(z3.Implies(is_list(e), ln(e) >= 0))
+    p.assume(z3.Implies(is_dict(e), z3.And(dcard(e) >= 0,
+                                           (dcard(e) == 0) == z3.ForAll([k], z3.Not(z3.Select(ddom(e), k))))))
 
 
 class _Frozen:
@@ -176,8 +178,8 @@ def view(I, v):
     """exec mode: decide the runtime type of a Dyn value by branching and return the ordinary value"""
     if v._view is not None:
         return v._view
-    axioms(I)
     e = z3.simplify(v.e)
+    wf(I, e)
     out = None
     for tag, rec in _TAGS:
         if I.path.branch(rec(e)):
@@ -191,7 +193,7 @@ def view(I, v):
 
 def spec_view(I, v, tag):
     """spec mode: look at a Dyn value as if it had the given type (unspecified payload when it has not)"""
-    axioms(I)
+    wf(I, v.e)
     return _mk_view(I, v.e, tag)
 
 
@@ -246,7 +248,7 @@ def isinstance_cond(v, names):
 def length(I, v):
     """len(x) as a total term (unspecified for values without len)"""
     e = v.e
-    axioms(I)
+    wf(I, e)
     und = z3.Function("dyn_len_undef", JV, z3.IntSort())
     return z3.If(is_str(e), z3.Length(js(e)), z3.If(is_list(e), ln(e), z3.If(is_dict(e), dcard(e), und(e))))
 
@@ -327,6 +329,9 @@ def _dy(args):
     v = args[0]
     if isinstance(v, VDyn):
         return v
+    if isinstance(v, VUndef):
+        from .interp import SpecUndef
+        raise SpecUndef("Dyn predicate over an undefined value")
     return VDyn(to_dyn(v))
 
 
